@@ -1,7 +1,7 @@
 """C16 - formatted source means exactly what the code-generation AST says (DESIGN §4 C16).
 
 Enumerated: ALL expression trees of depth <= 2 over all node kinds (literals +-float/+-int/complex, Symbol, ArrayAccess,
-Neg, Not, the 4 arithmetic and 8 comparison/logic binary operators, n-ary Sum/Product of 2-3 operands, Conditional,
+Neg, Not, the 4 arithmetic and 8 comparison/logic binary operators, n-ary Sum/Product of 1-3 operands, Conditional,
 MathFunction with 1 and 2 arguments) in every operand position, plus all depth-3 chains (parent, side, child, side,
 grandchild); all statement kinds (nested loops, array declarations of rank 1-4 with initialisers, sections, assignments);
 the captured kernel ASTs of a corpus.  Oracle: format -> parse (pycparser for C, Python's ast for numba) -> normal form ==
@@ -45,6 +45,9 @@ def constructors(L, S):
         out.append((nm, 1, f))
     for nm, c in S["binary"]:
         out.append((nm, 2, lambda a, b, c=c: c(a, b)))
+    # one-operand n-ary nodes (a rank-1 MultiIndex flattens to Sum([i]); licm leaves Product([t])): a transparent wrapper of MUL/ADD precedence
+    out.append(("Sum1", 1, lambda a: L.Sum([a])))
+    out.append(("Product1", 1, lambda a: L.Product([a])))
     out.append(("Sum2", 2, lambda a, b: L.Sum([a, b])))
     out.append(("Sum3", 3, lambda a, b, c: L.Sum([a, b, c])))
     out.append(("Product2", 2, lambda a, b: L.Product([a, b])))
